@@ -137,6 +137,11 @@ func runC16(r *run) {
 			slog.SetFlags(fl)
 			// enter and leave a scope that changes the date/time/zone bits
 			restore := slog.SaveFlagsAndMod(^fl&(slog.Ldatetimeflags|slog.LlocalTime), fl&(slog.Ldatetimeflags|slog.LlocalTime))
+			if g.chance(2, 3) {
+				// a record formatted while the scope's flags are in force must not be remembered afterwards
+				l.WriteThru(ctx, slog.InfoLevel, time.Unix(int64(g.intn(2000000000)), 0), 0, "inside the scope", nil)
+				rec.take()
+			}
 			restore()
 		case 2:
 			slog.ResetFlags()
